@@ -472,7 +472,9 @@ class Owner(callbacks.Plugin):
             return
         callbacks = irc.removeCallback(name)
         if callbacks:
-            module = sys.modules[callbacks[0].__module__]
+            # The module may be missing from sys.modules if a previous reload
+            # failed while importing it.
+            module = sys.modules.get(callbacks[0].__module__)
             if hasattr(module, 'reload'):
                 x = module.reload()
             try:
